@@ -19,7 +19,6 @@ import (
 	"testing"
 	"time"
 
-	"github.com/bluenviron/mediamtx/internal/verifhook"
 	"verif.local/vmon"
 )
 
@@ -67,12 +66,12 @@ func c27FaultChild(t *testing.T) {
 		fmt.Fprintln(os.Stderr, "child: setrlimit:", err)
 		os.Exit(3)
 	}
-	verifhook.SetPoint(func(name string) {
+	vRecExtraPoint = func(name string) {
 		if name == "recorder.instance.afterError" {
 			syscall.Setrlimit(syscall.RLIMIT_FSIZE, &orig) //nolint:errcheck
 			fmt.Fprintln(os.Stderr, "child: write error seen by the recorder, limit lifted")
 		}
-	})
+	}
 	vRecord(t, filepath.Join(os.Getenv("VERIF_CHILD_DIR"), "rec/%path/%Y-%m-%d_%H-%M-%S-%f"), c27FaultSpec)
 }
 
